@@ -737,6 +737,8 @@ class Search(common.Suite):
         atoms = self.build(case)
         req = case["required_size"]
         req = tuple(req) if isinstance(req, list) else req
+        if isinstance(req, int) and not isinstance(req, bool) and len(case["box"]["numbers"]) % 2 == 1:
+            req = np.int64(req)     # a size that comes out of a numpy computation is an integer like any other
         d = case["default"]
         if d is not None:
             d = np.array(d, dtype=int) if case["default_kind"] in ("ndarray", "readonly") else list(d)
